@@ -156,7 +156,7 @@ impl Gen {
         let mut ks: Vec<u64> = (0..n).map(|_| match self.rng.below(5) {
             // the low keys are the assigned ones (SVCB: mandatory, alpn, ...; NSEC: window 0), where code is apt to look inside the value
             0 | 1 => self.rng.below(8),
-            1 => max - 1 - self.rng.below(3),
+            2 => max - 1 - self.rng.below(3),
             _ => self.rng.below(max),
         }).collect();
         ks.sort();
